@@ -3,7 +3,7 @@ CONSTANTS
   MaxBlocks = 2
   MaxReqs = 2
   Templates = {"o23", "ref", "dq"}
-  PatchKinds = {"plain2", "ref", "bytes"}
+  PatchKinds = {"plain2", "ref", "bytes", "datasec"}
   FnLayouts = {"none"}
   EndSyms = {FALSE}
   NoSyms = {FALSE}
